@@ -139,16 +139,17 @@ Definition with_mode (d : xdrv) (m : xmode) : xdrv := mkDrv (x_caps d) m (x_init
 Definition with_caps (d : xdrv) (c : xcaps) : xdrv := mkDrv c (x_mode d) (x_init d).
 Definition with_init (d : xdrv) (i : xinit) : xdrv := mkDrv (x_caps d) (x_mode d) i.
 
-(* on_modereport(initial = '?', mode, value) *)
+(* on_modereport(initial = '?', mode, value): a report is taken only while the control has not been
+   set (or reported) yet -- afterwards it is stale *)
 Definition xt_on_modereport (d : xdrv) (mode value : Z) : xdrv :=
   let m := x_mode d in let i := x_init d in let c := x_caps d in
   if mode =? 12 then
     with_init (with_mode d (mkMode (m_altscreen m) (m_cursorvis m)
-                                   (if value =? 1 then true else m_cursorblink m)
+                                   (if (value =? 1) && negb (i_cursorblink i) then true else m_cursorblink m)
                                    (m_cursorshape m) (m_mouse m) (m_keypad m)))
               (mkInit (i_cursorvis i) true (i_cursorshape i) (i_slrm i))
   else if mode =? 25 then
-    with_init (with_mode d (mkMode (m_altscreen m) (if value =? 1 then true else m_cursorvis m)
+    with_init (with_mode d (mkMode (m_altscreen m) (if (value =? 1) && negb (i_cursorvis i) then true else m_cursorvis m)
                                    (m_cursorblink m) (m_cursorshape m) (m_mouse m) (m_keypad m)))
               (mkInit true (i_cursorblink i) (i_cursorshape i) (i_slrm i))
   else if mode =? 69 then
@@ -161,7 +162,8 @@ Definition xt_on_modereport (d : xdrv) (mode value : Z) : xdrv :=
 Definition xt_on_decscusr (d : xdrv) (value : Z) : xdrv :=
   let m := x_mode d in let i := x_init d in let c := x_caps d in
   with_init (with_caps (with_mode d (mkMode (m_altscreen m) (m_cursorvis m) (m_cursorblink m)
-                                            (((value + 1) / 2) mod 4) (m_mouse m) (m_keypad m)))
+                                            (if i_cursorshape i then m_cursorshape m else ((value + 1) / 2) mod 4)
+                                            (m_mouse m) (m_keypad m)))
                        (mkCaps true (cap_slrm c) (cap_colon c) (cap_rgb8 c)))
             (mkInit (i_cursorvis i) (i_cursorblink i) true (i_slrm i)).
 (* on_decrqss for "...m": separator and RGB support *)
@@ -205,12 +207,15 @@ Definition xt_setctl (d : xdrv) (c : ctl) (value : Z) : xdrv * list token * bool
       else (with_mode d (mkMode (nz value) (m_cursorvis m) (m_cursorblink m) (m_cursorshape m) (m_mouse m) (m_keypad m)),
             [dec_mode 1049 (nz value)], true)
   | CtlCursorvis =>
-      if Bool.eqb (negb (m_cursorvis m)) (negb (nz value)) then (d, [], true)
-      else (with_mode d (mkMode (m_altscreen m) (nz value) (m_cursorblink m) (m_cursorshape m) (m_mouse m) (m_keypad m)),
+      let i := x_init d in
+      let d1 := with_init d (mkInit true (i_cursorblink i) (i_cursorshape i) (i_slrm i)) in
+      if Bool.eqb (negb (m_cursorvis m)) (negb (nz value)) then (d1, [], true)
+      else (with_mode d1 (mkMode (m_altscreen m) (nz value) (m_cursorblink m) (m_cursorshape m) (m_mouse m) (m_keypad m)),
             [dec_mode 25 (nz value)], true)
   | CtlCursorblink =>
       if i_cursorblink (x_init d) && Bool.eqb (negb (m_cursorblink m)) (negb (nz value)) then (d, [], true)
-      else (with_mode d (mkMode (m_altscreen m) (m_cursorvis m) (nz value) (m_cursorshape m) (m_mouse m) (m_keypad m)),
+      else (with_init (with_mode d (mkMode (m_altscreen m) (m_cursorvis m) (nz value) (m_cursorshape m) (m_mouse m) (m_keypad m)))
+                      (mkInit (i_cursorvis (x_init d)) true (i_cursorshape (x_init d)) (i_slrm (x_init d))),
             [dec_mode 12 (nz value)], true)
   | CtlMouse =>
       if m_mouse m =? value then (d, [], true)
@@ -218,7 +223,8 @@ Definition xt_setctl (d : xdrv) (c : ctl) (value : Z) : xdrv * list token * bool
             (if value =? 0 then mouse_tokens (m_mouse m) false else mouse_tokens value true), true)
   | CtlCursorshape =>
       if i_cursorshape (x_init d) && (m_cursorshape m =? value) then (d, [], true)
-      else (with_mode d (mkMode (m_altscreen m) (m_cursorvis m) (m_cursorblink m) (value mod 4) (m_mouse m) (m_keypad m)),
+      else (with_init (with_mode d (mkMode (m_altscreen m) (m_cursorvis m) (m_cursorblink m) (value mod 4) (m_mouse m) (m_keypad m)))
+                      (mkInit (i_cursorvis (x_init d)) (i_cursorblink (x_init d)) true (i_slrm (x_init d))),
             (if cap_cursorshape (x_caps d)
              then [TCsi None [[Some (value * 2 + (if m_cursorblink m then -1 else 0))]] [32] 113]
              else []), true)
